@@ -397,7 +397,8 @@ class C08(Profile):
         big = tier == "thorough"
         mode = rng.choice(["sql", "sql", "it", "multi", "it2"])
         if mode == "multi":
-            return multi_gen(rng, tier, weights={**MULTI_W, "join": 2, "chain": 2}, flags_p=0.3, udf_p=0.08)
+            return multi_gen(rng, tier, weights={**MULTI_W, "join": 2, "chain": 2}, flags_p=0.3, udf_p=0.12,
+                             itonly_p=0.4 if rng.random() < 0.5 else 0.0)
         if mode == "it2":
             return multi_gen(rng, tier, weights={**MULTI_W, "join": 0.3, "chain": 2, "xfer": 5}, flags_p=0.2, udf_p=0.15,
                              engines=["it", "it2"])
